@@ -404,6 +404,14 @@ def run(prog: Program, rep, thorough: bool) -> None:
                 p_hist.add(fld)
     if n_leaf == 0:
         raise AnalysisError('should_record has no non-raising outcome in the abstract evaluation')
+    fcls_ = sr.cls
+    stored_anywhere = {x.attr for m_ in fcls_.methods.values() for x in ast.walk(m_.node)
+                       if isinstance(x, ast.Attribute) and isinstance(x.ctx, ast.Store)}
+    gone = sorted({'previous_time', 'previous_mach', 'previous_position', 'previous_velocity'} - stored_anywhere)
+    if gone:
+        # the history is kept in another layout (a record, a tuple): this rule reads the four fields of the pinned layout
+        raise AnalysisError(f'the record filter no longer has the history fields {gone}: its layout changed, the history rule '
+                            f'cannot read it')
     for short in ('check_zero_crossing', 'check_mach_crossing'):
         if short in p_reach:
             rep.fail('C15.R2', tc.path, sr.node.lineno, sr.qualname, f'reach:{short}',
